@@ -11,6 +11,10 @@ import (
 type Edge struct {
 	From *ssa.BasicBlock
 	Succ int // index into From.Succs
+	// implied, when set, replaces the branch condition: MustCross presents every
+	// fact implied by a real edge (operands of a short-circuit value) as such a
+	// pseudo edge, so predicates written against EdgeFact see them too.
+	implied *Fact
 }
 
 // Fact is what is known to hold when an edge is taken: the condition value Cond
@@ -22,6 +26,9 @@ type Fact struct {
 
 // EdgeFact returns the fact established by taking edge e, if From ends in an If.
 func EdgeFact(e Edge) (Fact, bool) {
+	if e.implied != nil {
+		return *e.implied, true
+	}
 	b := e.From
 	if len(b.Instrs) == 0 {
 		return Fact{}, false
@@ -120,6 +127,16 @@ func MustCross(fn *ssa.Function, sat func(Edge) bool, kill func(*ssa.BasicBlock)
 			return v
 		}
 		v := sat(e)
+		if !v {
+			if fs := EdgeFacts(e); len(fs) > 1 {
+				for i := range fs[1:] {
+					if sat(Edge{From: e.From, Succ: e.Succ, implied: &fs[1+i]}) {
+						v = true
+						break
+					}
+				}
+			}
+		}
 		satCache[e] = v
 		return v
 	}
@@ -143,7 +160,7 @@ func MustCross(fn *ssa.Function, sat func(Edge) bool, kill func(*ssa.BasicBlock)
 					if s != b {
 						continue
 					}
-					if !(out || esat(Edge{p, i})) {
+					if !(out || esat(Edge{From: p, Succ: i})) {
 						v = false
 					}
 				}
